@@ -78,7 +78,7 @@ Log(r) == /\ hist' = Append(hist, r @@ [exp |-> Expect])
 
 \* a lower bound on the steps still needed to become quiescent: one per queued notification, a restart,
 \* and for every queued rescan one step per batch up to the tip the wallet will have by then
-TaskNeed(t) == IF t[1] = "remove" THEN 1
+TaskNeed(t) == IF t[1] \in {"remove", "remove2"} THEN 1
                ELSE LET todo == Len(wchain') + Len(ntfB') - cursor'[t[2]]
                     IN IF todo <= ImportBatch THEN 1 ELSE (todo + ImportBatch - 1) \div ImportBatch
 RECURSIVE SumNeed(_)
@@ -107,7 +107,7 @@ SameAct(r, s) ==
          [] s.a \in {"HandleBlock", "SwitchTo"} -> r.b = s.b
          [] s.a \in {"Announce", "HandleTx"}    -> r.t = s.t
          [] s.a \in {"RestartCrash", "RemoveStepCrash"} -> r.k = s.k
-         [] s.a \in {"Import", "Remove", "ImportStep", "RemoveStep"} -> r.w = s.w
+         [] s.a \in {"Import", "Remove", "ImportStep", "RemoveStep", "RemoveStepA", "RemoveStepB"} -> r.w = s.w
          [] OTHER                              -> TRUE
 
 GenNext ==
@@ -152,6 +152,8 @@ GenNext ==
           /\ Log([a |-> "ImportStep", w |-> Head(tasks)[2], cur |-> cursor'[Head(tasks)[2]],
                   done |-> status'[Head(tasks)[2]] = "ready", qlen |-> Len(tasks)])
        \/ /\ Lifecycle /\ RemoveStep /\ Log([a |-> "RemoveStep", w |-> Head(tasks)[2], qlen |-> Len(tasks)])
+       \/ /\ Lifecycle /\ GenMulti /\ RemoveStepA /\ Log([a |-> "RemoveStepA", w |-> Head(tasks)[2], qlen |-> Len(tasks)])
+       \/ /\ Lifecycle /\ GenMulti /\ RemoveStepB /\ Log([a |-> "RemoveStepB", w |-> Head(tasks)[2], qlen |-> Len(tasks)])
        \/ /\ Crashes /\ Lifecycle /\ Cardinality(TaskSet) <= 1
           /\ \E k \in Pick(1..RemoveCommits) :
                 RemoveStepCrash(k) /\ Log([a |-> "RemoveStepCrash", w |-> Head(tasks)[2], k |-> k])
